@@ -1,0 +1,40 @@
+//go:build verif
+
+// Contracts for package errchain (comment-only; read by /verif/plvc).
+
+package errchain
+
+//@ default nonnil *PlError
+
+//@ func NewErr
+//@ props C17 C01
+//@ modifies nothing
+//@ ensures result != nil && fresh(result) && fresh(result.PosChain)
+//@ ensures len(result.PosChain) == 1 && result.Err == err
+//@ ensures result.PosChain[0].File == file && result.PosChain[0].Ln == pos.Ln
+//@ ensures result.PosChain[0].Col == pos.Col && result.PosChain[0].Pos == int(pos.Pos)
+
+//@ func (*PlError).ChainAppend
+//@ props C17 C09 C13
+//@ modifies e.PosChain, elems(e.PosChain)
+//@ ensures result == e
+//@ ensures len(e.PosChain) == old(len(e.PosChain)) + 1
+//@ ensures forall i :: 0 <= i && i < old(len(e.PosChain)) ==> e.PosChain[i] == old(e.PosChain[i])
+//@ ensures e.PosChain[len(e.PosChain)-1].File == file && e.PosChain[len(e.PosChain)-1].Ln == pos.Ln
+//@ ensures e.PosChain[len(e.PosChain)-1].Col == pos.Col && e.PosChain[len(e.PosChain)-1].Pos == int(pos.Pos)
+
+//@ func (*PlError).Copy
+//@ props C17 C09 C13
+//@ modifies nothing
+//@ ensures result != nil && fresh(result) && fresh(result.PosChain)
+//@ ensures result.Err == e.Err && len(result.PosChain) == len(e.PosChain)
+//@ ensures forall i :: 0 <= i && i < len(e.PosChain) ==> result.PosChain[i] == e.PosChain[i]
+
+//@ func (*PlError).Error
+//@ props C17 C01
+//@ pure
+//@ ensures len(e.PosChain) == 0 ==> result == ""
+//@ loop 1
+//@ invariant 0 <= i && i <= len(e.PosChain)
+
+//@ sweep[C17] (PlErrors).Error
